@@ -29,10 +29,16 @@ func TestMain(m *testing.M) {
 			"effects (a printing function) and nested macro calls, at top level, inside function bodies, loops, conditions and call arguments. The harness performs the substitution on its own tree giving the " +
 			"macro-free program H. Oracle: (1) dump(ExpandMacros(parse(P))) == dump(parse(print(H))); (2) printing and re-parsing both gives the same dump; (3) evaluating P and H on twin sessions gives the same " +
 			"output, echo and errors per input (so arguments are evaluated exactly as often as the template mentions them, never at expansion time); (4) expanding the same input again, after other uses, gives " +
-			"the same dump and the macro's printed form is unchanged. Non-trivial: a parameter used >= 2 times or >= 2 call sites of one macro or a nested macro call, and an argument with its own operator; distinct by text.",
+			"the same dump and the macro's printed form is unchanged. " +
+			"TestSessionShapes draws the same sessions with further shapes switched on (any mix of the three): templates with ranges seq[T:], seq[T:T'], [T, T', ..][unquote(p):] whose bounds hold unquote(parameter), " +
+			"call sites that are (in) a bound of a range of the calling program (seq[m(..):], seq[m(..):m(..)], seq[n:m(..)], seq[m(..) % 5:], seq[id(m(..)):]) and arguments holding such a range; parameters named like " +
+			"functions and constants of the library (min, max, abs, str, keys, int, type, format, ..., PI, E) and templates calling min / max / abs; a macro name defined 2..3 times in one input (with the same or " +
+			"other parameters, typed or inside eval()) or defined again by a later input - H is substituted with the LAST definition read so far, like every other binding. Non-trivial: a parameter used >= 2 times or >= 2 call sites of one macro or a nested macro call, and an argument with its own operator; distinct by text.",
 		Assumptions: []string{
 			"macros whose body is not a single quote(...) or whose unquote arguments are not bare parameters are outside the property and not generated",
-			"macro names are lower case and defined once per session (redefinition is not part of the property)",
+			"macro names are lower case; a name may be defined several times (TestSessionShapes only): all definitions of an input are recorded in statement order before its call sites are rewritten, the last one " +
+				"replaces the earlier ones for that input and the later inputs, and inputs read before a redefinition are no longer re-expanded for comparison (oracle 4)",
+			"a definition is never written after a use of that name within one input",
 		},
 	})
 }
